@@ -23,12 +23,17 @@ ASSUMPTIONS = ["integer-valued data keeps sums/products exact so comparison with
 TRUSTED = []
 
 
+# array ids are written relative to the first array of the current case, so that the nat literals stay small however many
+# arrays the process has created before
+_BASE = [0]
+
+
 def kt(x):
     from cubed.primitive.blockwise import ChunkKey, FunctionArgs
     from collections.abc import Iterator
 
     if isinstance(x, ChunkKey):
-        return f"KLeaf ({int(x.name.rsplit('-', 1)[1])}, {cnatlist(x.coords)})"
+        return f"KLeaf ({int(x.name.rsplit('-', 1)[1]) - _BASE[0]}, {cnatlist(x.coords)})"
     if isinstance(x, list):
         return "KList [" + "; ".join(kt(a) for a in x) + "]"
     if isinstance(x, Iterator):
@@ -51,12 +56,13 @@ def k_keyfunctions(ctx):
     r = ctx.rng
     spec = cubed.Spec(allowed_mem="500MB")
     cases = []
-    nid = lambda a: int(a.name.rsplit("-", 1)[1])
+    nid = lambda a: int(a.name.rsplit("-", 1)[1]) - _BASE[0]
     for _ in range(ctx.n(150, 3000)):
         nd = r.choice([1, 2, 2, 3])
         shape = tuple(r.randint(1, 9) for _ in range(nd))
         chunks = tuple(r.randint(1, n) for n in shape)
         x = xp.asarray(np.zeros(shape), chunks=chunks, spec=spec)
+        _BASE[0] = int(x.name.rsplit("-", 1)[1]) - 1
         kind = r.choice(["partial_reduce", "stack", "unstack", "scan", "concat", "concat"])
         ctx.evaluations += 1
         desc = {"kind": kind, "shape": shape, "chunks": chunks}
@@ -96,7 +102,7 @@ def k_keyfunctions(ctx):
                     pop = dag.nodes[op]["primitive_op"]
                     kf = pop.pipeline.config.back_key_function
                     srcs = [dag.nodes[n_]["target"] for n_ in pop.source_array_names]
-                    names = [int(n_.rsplit("-", 1)[1]) for n_ in pop.source_array_names]
+                    names = [int(n_.rsplit("-", 1)[1]) - _BASE[0] for n_ in pop.source_array_names]
                     from cubed.utils import to_chunksize, normalize_chunks
                     in_cs = [list(to_chunksize(normalize_chunks(t.chunks, shape=t.shape, dtype=t.dtype))) for t in srcs]
                     offs = [0]
@@ -107,7 +113,7 @@ def k_keyfunctions(ctx):
                     from harness.framework import cnatlist2
                     for oc in itertools.product(*[range(n) for n in y.numblocks]):
                         fa = kf(ChunkKey(y.name, oc))
-                        got = "[" + "; ".join(f"({int(kk.name.rsplit('-', 1)[1])}, {cnatlist(kk.coords)})" for kk in fa.args[0]) + "]"
+                        got = "[" + "; ".join(f"({int(kk.name.rsplit('-', 1)[1]) - _BASE[0]}, {cnatlist(kk.coords)})" for kk in fa.args[0]) + "]"
                         cases.append({"expr": f"keys_eqb (concat_kf {cnatlist(names)} {cnatlist2(in_cs)} {cnatlist(offs)} {ax} {cnatlist(out_cs)} {cnatlist(y.shape)} {cnatlist(oc)}) {got}",
                                       "desc": {**desc, "out": oc}, "show": f"concat_kf {cnatlist(names)} {cnatlist2(in_cs)} {cnatlist(offs)} {ax} {cnatlist(out_cs)} {cnatlist(y.shape)} {cnatlist(oc)}"})
                 elif kind == "stack":
@@ -150,7 +156,7 @@ def k_keyfunctions(ctx):
                         op = next(iter(dag.predecessors(y.name)))
                         pop = dag.nodes[op]["primitive_op"]
                         kf = pop.pipeline.config.back_key_function
-                        sc, inc = [int(n.rsplit("-", 1)[1]) for n in pop.source_array_names]
+                        sc, inc = [int(n.rsplit("-", 1)[1]) - _BASE[0] for n in pop.source_array_names]
                         for oc in list(itertools.product(*[range(n) for n in y.numblocks]))[:12]:
                             fa = kf(ChunkKey(y.name, oc))
                             got = "[" + "; ".join(kt(a) for a in fa.args) + "]"
